@@ -104,7 +104,11 @@ def finish(run, seed=0, out_dir=None, quiet=False):
         (old if f.ident in known_ids else new).append(f)
     # instance floors
     floor_errors = []
+    if getattr(run, "aborted", None):
+        floor_errors.append("analysis aborted: %s" % run.aborted)
     for rid in run.order:
+        if getattr(run, "aborted", None):
+            break
         r = run.rules[rid]
         if r.instances < r.floor:
             floor_errors.append("%s matched %d instances, floor is %d" % (rid, r.instances, r.floor))
